@@ -208,7 +208,7 @@ func ruleEndBlock(c *Ctx, r *Report, rule string) {
 	r.check(dupErr > 0, rule, "duplicate-error", "a hit in the parent's Fields is a runtime error", "ENDBLOCK has no error path for a duplicate child key", pos)
 	// the stored value is the child by value, the appended one is blockStack[0]
 	okVal, okTop := false, false
-	ast.Inspect(arm.Clause, func(n ast.Node) bool {
+	vm.inspectArm(c, arm, func(n ast.Node) bool {
 		as, ok := n.(*ast.AssignStmt)
 		if !ok || len(as.Lhs) != 1 || len(as.Rhs) != 1 {
 			return true
@@ -224,15 +224,25 @@ func ruleEndBlock(c *Ctx, r *Report, rule string) {
 				}
 			}
 		}
-		if call, ok := as.Rhs[0].(*ast.CallExpr); ok && c.calleeName(call) == "append" && len(call.Args) == 2 {
-			if ix, ok := call.Args[1].(*ast.IndexExpr); ok && c.fieldPath(ix.X) == "<vm>.blockStack" {
-				if k, isC := c.intConst(ix.Index); isC && k == 0 {
-					okTop = true
+		return true
+	})
+	// what is appended to the result is the block being closed: blockStack[0] (the arm knows the stack is at depth 1)
+	// or blockStack[blockTos-1] as it was on entry
+	for _, p := range arm.Paths {
+		for _, ev := range p.Events {
+			if ev.Kind == "append" && ev.Detail == "result" {
+				v := ev.Val
+				if len(v.Tup) == 1 {
+					v = v.Tup[0]
+				}
+				if v.K == vTag && v.Tag == "blk" {
+					if d, _ := v.Data.(string); d == "-1" || d == "-blockTos" {
+						okTop = true
+					}
 				}
 			}
 		}
-		return true
-	})
+	}
 	r.check(okVal && okTop, rule, "values", "child stored by value; blockStack[0] appended", fmt.Sprintf("ENDBLOCK: child stored by value %v, blockStack[0] appended %v", okVal, okTop), pos)
 }
 
@@ -270,7 +280,8 @@ func ruleFreshBlock(c *Ctx, r *Report, rule string) {
 	// the composite literal
 	okLit := false
 	why := "no Block literal found"
-	ast.Inspect(arm.Clause, func(n ast.Node) bool {
+	armNodes := vm.armNodes(c, arm)
+	vm.inspectArm(c, arm, func(n ast.Node) bool {
 		cl, ok := n.(*ast.CompositeLit)
 		if !ok || !isNamed(c.typeOf(cl), bclPath, "Block") {
 			return true
@@ -291,6 +302,7 @@ func ruleFreshBlock(c *Ctx, r *Report, rule string) {
 			if e == nil {
 				return false
 			}
+			e = vm.argExpr(c, armNodes, e)
 			if ta, ok := stripParens(e).(*ast.TypeAssertExpr); ok {
 				e = ta.X
 			}
@@ -437,7 +449,7 @@ func ruleBlockKey(c *Ctx, r *Report, rule string) {
 			roots = append(roots, lit)
 		}
 		if arm := vm.Arms["opGETFIELD"]; arm != nil {
-			roots = append(roots, arm.Clause)
+			roots = append(roots, vm.armNodes(c, arm)...)
 		}
 		for _, root := range roots {
 			ast.Inspect(root, func(n ast.Node) bool {
@@ -520,6 +532,17 @@ func ruleBlockKey(c *Ctx, r *Report, rule string) {
 // exprShape renders vm.blockStack[vm.blockTos-1].Type as "<vm>.blockStack[blockTos-1].Type".
 func (c *Ctx) exprShape(e ast.Expr) string {
 	switch e := stripParens(e).(type) {
+	case *ast.CallExpr:
+		// a trivial accessor such as curBlock() { return &vm.blockStack[vm.blockTos-1] }
+		if u := c.unfoldTrivial(e); u != ast.Expr(e) {
+			return c.exprShape(u)
+		}
+	case *ast.UnaryExpr:
+		if e.Op == token.AND {
+			return c.exprShape(e.X)
+		}
+	case *ast.StarExpr:
+		return c.exprShape(e.X)
 	case *ast.SelectorExpr:
 		if fp := c.fieldPath(e); fp != "" && !strings.Contains(fp, "[]") {
 			return fp
